@@ -57,6 +57,7 @@ Section SF.
           match fdest (sx t1) v vs with
           | Ok g => ret (g, mk (sx t1) (sf t1) (Some g) (nfev t1 + Z.of_nat (length vs)) (ngev t1 + 1) (scale t1))
           | Raise e => raise e
+          | OutOfFuel => (OutOfFuel, [])
           end
         else
           g <- call_g (sx t) ;; ret (g, mk (sx t) (sf t) (Some g) (nfev t) (ngev t + 1) (scale t))
